@@ -197,7 +197,7 @@ pub fn generate(rng: &mut Rng, tier: Tier, emit: &mut dyn FnMut(String)) {
     if !quick {
         emit("map A32767;a1;a2;a3;l64;l63;a4;a5;l0;l32767;a6;a7;a8;o6;o7;l0;l32767;L1:2000;A2001;l32767".to_owned());
         emit("map A20000;L0:20000;h".to_owned());
-        emit("map A32768;L0:32768;a1;h".to_owned());
+        emit("map A32768;L20000:12768;A12769;a1;l0;a2".to_owned());
     }
     // connection level: exhaustive short schedules, then random ones
     let calpha = ["s", "S", "c0", "c1", "p0", "r0", "r1", "u0", "u1", "g", "G", "x"];
